@@ -31,6 +31,8 @@ pub struct Stats {
     pub reach: BTreeMap<String, u64>,
     pub distinct: HashSet<u64>,
     pub samples: Vec<serde_json::Value>,
+    /// order-independent digest of every device event of every simulated world (determinism proof)
+    pub log_digest: u64,
 }
 
 impl Stats {
@@ -45,6 +47,14 @@ impl Stats {
     }
     pub fn absorb_world(&mut self, w: &crate::world::World) {
         self.steps += w.log.len() as u64;
+        let mut h: u64 = 0xcbf2_9ce4_8422_2325;
+        for e in &w.log {
+            for x in [e.dev as u64, e.kind as u64, e.pos, e.asked as u64, e.moved as u64, e.err.map(|k| k as u64 + 1).unwrap_or(0)] {
+                h ^= x;
+                h = h.wrapping_mul(0x1000_0000_01b3);
+            }
+        }
+        self.log_digest = self.log_digest.wrapping_add(h);
         for (k, n) in &w.fired {
             self.fault(k, *n);
         }
